@@ -51,7 +51,9 @@ Definition f32_to_f64 (b : N) : N :=
   let e := (b / 8388608) mod 256 in
   let m := b mod 8388608 in
   let sign := s * two63 in
-  if e =? 255 then sign + 2047 * two52 + m * 536870912
+  if e =? 255 then
+    (* Inf / NaN; the conversion instruction quiets a signalling NaN (sets the top fraction bit) *)
+    sign + 2047 * two52 + m * 536870912 + (if (m =? 0) || (4194304 <=? m) then 0 else 2251799813685248)
   else if e =? 0 then
     if m =? 0 then sign
     else
